@@ -94,7 +94,7 @@ def run_property(pid, tier, repo, jobs=12):
         return res
 
     def go(u):
-        return u, K.run_harness(ov, u["harness"], solver=u.get("solver"), timeout=u.get("timeout", 600), extra=u.get("extra"))
+        return u, K.run_harness(ov, u["harness"], solver=u.get("solver"), timeout=u.get("timeout", 600), extra=u.get("extra"), should_panic=u.get("should_panic", False))
 
     # the first run compiles the overlay; the others then hit a warm cache
     first = go(us[0])
@@ -141,11 +141,17 @@ def run_property(pid, tier, repo, jobs=12):
             continue
         if r["status"] == "refuted":
             # second run with concrete playback to obtain the counterexample
-            r2 = K.run_harness(ov, u["harness"], solver=u.get("solver"), timeout=max(1800, u.get("timeout", 600) * 4), extra=u.get("extra"), playback=True)
+            r2 = K.run_harness(ov, u["harness"], solver=u.get("solver"), timeout=max(1800, u.get("timeout", 600) * 4), extra=u.get("extra"), playback=True, should_panic=u.get("should_panic", False))
             decoded, confirmed, replay_txt = [], None, "no counterexample bytes obtained"
-            if r2.get("concrete_vals") and u.get("schema"):
-                decoded = decode(u["schema"], r2["concrete_vals"])
-                confirmed, replay_txt = native_replay(repo, u, decoded)
+            # one counterexample per failing check: replay each until the unit's predicate is confirmed natively
+            for pb in (r2.get("fail_playbacks") or [])[:6]:
+                if not u.get("schema"): break
+                d = decode(u["schema"], pb["vals"])
+                cf, txt = native_replay(repo, u, d)
+                if not decoded or cf:
+                    decoded, confirmed, replay_txt = d, cf, txt
+                    r2["concrete_vals"], r2["concrete_for"] = pb["vals"], pb["description"]
+                if cf: break
             obl = "; ".join(c["description"] for c in r["refuted"][:3])
             rp = {"property": pid, "kind": "kani-counterexample", "kani": True, "unit": u["id"], "harness": u["harness"], "target": u.get("target"),
                   "failed_obligations": r["refuted"], "contract": u.get("contract"),
@@ -158,6 +164,22 @@ def run_property(pid, tier, repo, jobs=12):
             print("  native replay: %s %s" % ({True: "CONFIRMED", False: "not confirmed", None: "unavailable"}[confirmed], replay_txt[:300].replace("\n", " | ")))
             suffix = "" if confirmed else " no-failing-input-found"
             res["violation_lines"].append("VIOLATION property=%s replay=%s%s" % (pid, path, suffix))
+    # concrete native units
+    nat = [n for n in getattr(KU, "NATIVE_UNITS", []) if pid in n["property"]]
+    if nat:
+        bindir, err = replaybuild.build(repo, bins=["distreplay"])
+        for n in nat:
+            if not bindir:
+                res["infra"].append("native unit %s: replay crate does not build: %s" % (n["id"], err[-300:])); continue
+            p = subprocess.run([os.path.join(bindir, "distreplay")] + n["args"], capture_output=True, text=True, timeout=120)
+            rec = {"id": n["id"], "backend": "native run (one concrete input)", "bound": n["what"], "status": "discharged" if p.returncode == 0 else "refuted", "output": (p.stdout + p.stderr).strip()[:300]}
+            res["bounded_units"].append(rec)
+            if p.returncode == 1:
+                path = common.write_replay(pid, n["id"], {"property": pid, "kind": "native-concrete", "cmd": "distreplay " + " ".join(n["args"]), "output": rec["output"]})
+                print("  failed native unit: %s  %s" % (n["id"], rec["output"].replace("\n", " | ")))
+                res["violation_lines"].append("VIOLATION property=%s replay=%s" % (pid, path))
+            elif p.returncode != 0:
+                res["infra"].append("native unit %s: %s" % (n["id"], rec["output"]))
     for c in inserted:
         res["functions_under_contract"].append({"name": c["fn"], "file": c["file"], "line": c["repo_line"], "backend": "kani", "attributes": c["attributes"]})
     seen = set()
